@@ -172,7 +172,12 @@ func (sv *searchVars) setKeysItem(f slip.Object, s *slip.Scope, args slip.List, 
 }
 
 func (sv *searchVars) inList(s *slip.Scope, seq2 slip.List, depth int) slip.Object {
-	var seq1 slip.List
+	return sv.searchList(s, sv.seq1List(s, depth), seq2, depth)
+}
+
+// seq1List returns the elements of sequence-1, whatever its sequence type. The
+// two sequences do not have to be of the same type.
+func (sv *searchVars) seq1List(s *slip.Scope, depth int) (seq1 slip.List) {
 	switch s1 := sv.seq1.(type) {
 	case nil:
 		seq1 = slip.List{}
@@ -181,14 +186,20 @@ func (sv *searchVars) inList(s *slip.Scope, seq2 slip.List, depth int) slip.Obje
 	case *slip.Vector:
 		seq1 = s1.AsList()
 	case slip.String:
-		if 0 < len(s1) {
-			return nil
+		ra := []rune(s1)
+		seq1 = make(slip.List, len(ra))
+		for i, r := range ra {
+			seq1[i] = slip.Character(r)
 		}
-		return slip.Fixnum(0)
+	case slip.Octets:
+		seq1 = make(slip.List, len(s1))
+		for i, b := range s1 {
+			seq1[i] = slip.Octet(b)
+		}
 	default:
 		slip.TypePanic(s, depth, "sequence-1", s1, "sequence")
 	}
-	return sv.searchList(s, seq1, seq2, depth)
+	return
 }
 
 func (sv *searchVars) searchList(s *slip.Scope, seq1, seq2 slip.List, depth int) slip.Object {
@@ -291,34 +302,7 @@ func (sv *searchVars) inString(s *slip.Scope, seq2 slip.String, depth int) slip.
 	// functions. The index functions are []byte based which is contrary to
 	// what is needed by this function so instead convert to a []rune and then
 	// a list.
-	var seq1 slip.List
-	switch s1 := sv.seq1.(type) {
-	case nil:
-		seq1 = slip.List{}
-	case slip.List:
-		if 0 < len(s1) {
-			return nil
-		}
-		return slip.Fixnum(0)
-	case *slip.Vector:
-		if 0 < s1.Length() {
-			return nil
-		}
-		return slip.Fixnum(0)
-	case slip.String:
-		ra := []rune(s1)
-		seq1 = make(slip.List, len(ra))
-		for i, r := range ra {
-			seq1[i] = slip.Character(r)
-		}
-	case slip.Octets:
-		if 0 < len(s1) {
-			return nil
-		}
-		return slip.Fixnum(0)
-	default:
-		slip.TypePanic(s, depth, "sequence-1", s1, "sequence")
-	}
+	seq1 := sv.seq1List(s, depth)
 	ra := []rune(seq2)
 	sq2 := make(slip.List, len(ra))
 	for i, r := range ra {
@@ -328,33 +312,7 @@ func (sv *searchVars) inString(s *slip.Scope, seq2 slip.String, depth int) slip.
 }
 
 func (sv *searchVars) inOctets(s *slip.Scope, seq2 slip.Octets, depth int) slip.Object {
-	var seq1 slip.List
-	switch s1 := sv.seq1.(type) {
-	case nil:
-		seq1 = slip.List{}
-	case slip.List:
-		if 0 < len(s1) {
-			return nil
-		}
-		return slip.Fixnum(0)
-	case *slip.Vector:
-		if 0 < s1.Length() {
-			return nil
-		}
-		return slip.Fixnum(0)
-	case slip.String:
-		if 0 < len(s1) {
-			return nil
-		}
-		return slip.Fixnum(0)
-	case slip.Octets:
-		seq1 = make(slip.List, len(s1))
-		for i, b := range s1 {
-			seq1[i] = slip.Octet(b)
-		}
-	default:
-		slip.TypePanic(s, depth, "sequence-1", s1, "sequence")
-	}
+	seq1 := sv.seq1List(s, depth)
 	sq2 := make(slip.List, len(seq2))
 	for i, b := range seq2 {
 		sq2[i] = slip.Octet(b)
